@@ -40,11 +40,18 @@ def expected(op, fxm, fym, a, b):
     return fz, r
 
 
-def judge_pair(acc, fxm, fym, xs, ys, op, route, shape_mode, part, by='raw'):
+def judge_pair(acc, fxm, fym, xs, ys, op, route, shape_mode, part, by='raw', prelude=False):
     """x: codes xs, y: codes ys; shape_mode: 'outer' (n,1)x(1,m) | 'vec_scalar' (n,)x() | 'scalar_vec' ()x(m,) | 'scalar' ()x()"""
     case = {'part': part, 'fx': list(fxm), 'fy': list(fym), 'xs': list(xs), 'ys': list(ys), 'op': op, 'route': route, 'shape': shape_mode,
-            'by': by}
-    if shape_mode == 'outer':
+            'by': by, 'prelude': prelude}
+    transposed = False
+    if shape_mode == 'outer_T':
+        # both operands are transposed views of (m, n) arrays (not C-contiguous); element (i, j) pairs xs[i] with ys[j]
+        transposed = True
+        shx, shy = (len(ys), len(xs)), (len(ys), len(xs))
+        pairs = [(a, b) for a in xs for b in ys]
+        eshape = (len(xs), len(ys))
+    elif shape_mode == 'outer':
         shx, shy = (len(xs), 1), (1, len(ys))
         pairs = [(a, b) for a in xs for b in ys]
         eshape = (len(xs), len(ys))
@@ -69,8 +76,21 @@ def judge_pair(acc, fxm, fym, xs, ys, op, route, shape_mode, part, by='raw'):
     mixed = fxm.signed != fym.signed or fxm.n_frac != fym.n_frac
     acc.nontrivial += sum(1 for a, b in pairs if mixed or a in (fxm.lo, fxm.hi) or b in (fym.lo, fym.hi))
     try:
-        x = build(fxm, xs, shx, by)
-        y = build(fym, ys, shy, by)
+        if transposed:
+            x = build(fxm, [a for b in ys for a in xs], shx, by).T         # x.T[i, j] == xs[i]
+            y = build(fym, [b for b in ys for a in xs], shy, by).T         # y.T[i, j] == ys[j]
+        else:
+            x = build(fxm, xs, shx, by)
+            y = build(fym, ys, shy, by)
+        if prelude:
+            # earlier operations on the same operands with OTHER result sizes must not influence the optimal-sizing result
+            fx_fn = {'+': fx.add, '-': fx.sub, '*': fx.mul}[op]
+            for kw in ({'sizing': 'same'}, {'sizing': 'smallest'}, {'out': Fxp(np.zeros(eshape), True, 24, 1)}):
+                try:
+                    fx_fn(x, y, **kw)
+                    acc.transitions += 1
+                except Exception:
+                    pass
         ox, oy = obs(x), obs(y)
         z = apply(op, route, x, y)
         got = codes(z)
@@ -214,7 +234,7 @@ def corner_formats(nws):
 
 def bounds(tier, seed):
     return {'a_small_scope': 'all ordered pairs of formats with n_word<=%d, n_frac -1..n_word+1, both signednesses x every code pair (broadcast '
-                             'column x row) x {+,-,*} x 3 call routes (operator route only when a word exceeds 3, thorough 4); vec x scalar and scalar x vec shapes; scalar x scalar for n_word<=%d'
+                             'column x row; transposed 2-d views; after a prelude of same/smallest/out= operations on the same operands) x {+,-,*} x 3 call routes (operator route only when a word exceeds 3, thorough 4); vec x scalar and scalar x vec shapes; scalar x scalar for n_word<=%d'
                              % ((4, 2) if tier == 'quick' else (5, 3)),
             'b_corners': 'all ordered pairs of formats n_word in %s, n_frac in {-1,0,1,mid,n-1,n,n+1} with result word<=53 x {lo,hi,interior}^2 x 3 ops'
                          % ([1, 2, 3, 5, 8, 13, 16, 21, 26] if tier == 'quick' else '1..26'),
@@ -257,9 +277,14 @@ def run_shard(sh):
             ys = list(range(fym.lo, fym.hi + 1))
             big = max(fxm.n_word, fym.n_word) > sh.get('k_routes', 3)
             for op in OPS:
+                if not big:
+                    # FIRST use of this format pair in this process is an operation with another result size (then the judged one)
+                    judge_pair(acc, fxm, fym, xs, ys, op, 'operator', 'outer', 'a', 'raw', True)
                 for route in (ROUTES[:1] if big else ROUTES):
                     judge_pair(acc, fxm, fym, xs, ys, op, route, 'outer', 'a')
                 judge_pair(acc, fxm, fym, xs, ys, op, 'operator', 'outer', 'a', 'value')
+                if not big:
+                    judge_pair(acc, fxm, fym, xs, ys, op, 'operator', 'outer_T', 'a')                  # transposed 2-d operands
                 if big:
                     continue
                 judge_pair(acc, fxm, fym, xs, [ys[0]], op, 'operator', 'vec_scalar', 'a')
@@ -351,7 +376,7 @@ def replay(case):
         except Exception as e:
             acc.violation('exception', case, repr(e), {'part': 'T', 'op': op})
     else:
-        judge_pair(acc, Fmt(*case['fx']), Fmt(*case['fy']), case['xs'], case['ys'], case['op'], case['route'], case['shape'], case['part'], case.get('by', 'raw'))
+        judge_pair(acc, Fmt(*case['fx']), Fmt(*case['fy']), case['xs'], case['ys'], case['op'], case['route'], case['shape'], case['part'], case.get('by', 'raw'), case.get('prelude', False))
     return acc.violations
 
 
